@@ -6,8 +6,7 @@ CONSTANTS
   MarkMod = 8
   Prod = {1, 2}
   Cons = {3, 4}
-  Prog <- Prog_pp3
-  StartSet = {6}
+  Prog <- Prog_pp1
+  StartSet = {0, 7}
   Bug = "none"
 INVARIANTS ExactlyOnce FifoLinearizable PerProducerOrder CapacityBound NoTornSlot
-
